@@ -196,3 +196,47 @@ func vfH_C18_initial() {
 	vfAssert("nodelay/minrto", vfOr(k.rx_minrto == IKCP_RTO_NDL, k.rx_minrto == IKCP_RTO_MIN))
 	vfAssert("nodelay/interval-range", vfAnd(k.interval >= 10, k.interval <= 5000))
 }
+
+// C18 "resend timestamp armed at (re)transmission": whatever happened to a segment before it
+// first reached the wire — in particular an acknowledgement-only flush that already moved it
+// into the send buffer some time earlier — its retransmission timer runs from the moment of
+// its first transmission: a full RTO (never less than the minimum RTO) lies ahead, so a round
+// trip below the minimum RTO can never be overtaken by the timer.
+func vfH_C18_timer_runs_from_first_transmission() {
+	var em []vfEmit
+	k := vfNewKCP("", vfCfg{mtus: []int{60, 1400}, nc: 1}, &em)
+	sh := []vfShape{{0, 1, 0, 0, 1}, {0, 2, 0, 0, 1}, {1, 1, 0, 0, 2}}[vfPick("shape", 0, 2)]
+	vfArbitraryKCP("", k, sh)
+	vfAssume(k.probe == 0)
+	vfAssume(k.rmt_wnd >= 4)
+	t1 := vfU32("t1")
+	for i := 0; i < k.snd_buf.Len(); i++ {
+		s := vfRingAt(k.snd_buf, i)
+		age := _itimediff(t1, s.ts)
+		vfAssume(vfImplies(s.xmit > 0, vfAnd(age >= 0, age < 1<<30)))
+	}
+	inflight0 := k.snd_buf.Len()
+	vfReach("pre")
+	vfSetClock(t1)
+	k.flush(IKCP_FLUSH_ACKONLY) // e.g. triggered by incoming data with ackNoDelay
+	delta := uint32(vfIntRange("delta", 0, 5000))
+	t2 := t1 + delta
+	n0 := len(em)
+	vfSetClock(t2)
+	k.flush(IKCP_FLUSH_FULL)
+	vfReach("post")
+	first := 0
+	for i := inflight0; i < k.snd_buf.Len(); i++ {
+		s := vfRingAt(k.snd_buf, i)
+		if s.acked == 1 {
+			continue
+		}
+		// segments that were still queued at t1 are on the wire for the first time now
+		vfAssert("c18/first-transmission-happened", s.xmit == 1)
+		vfAssert("c18/timer-runs-a-full-rto-from-first-transmission", _itimediff(s.resendts, t2) >= int32(k.rx_rto))
+		vfAssert("c18/timer-not-before-the-minimum-rto", _itimediff(s.resendts, t2) >= int32(k.rx_minrto))
+		first++
+		vfReach("first-transmission")
+	}
+	_ = n0
+}
